@@ -119,7 +119,7 @@ def message_element(op):
     if t == 'StoryDelete':
         return [tag, {}, '', '', ro + [x for s in src for x in _idtag('storyID', s)]]
     if t == 'StorySend':
-        return [tag, {}, '', '', send_children(op)]
+        return [tag, dict(pay[0][1]), '', '', send_children(op)]
     if t in ('ItemInsert', 'ItemReplace'):
         return [tag, {}, '', '', ro + _idtag('storyID', op['story'])
                 + _idtag('itemID', op['target']) + pay]
@@ -135,7 +135,7 @@ def message_element(op):
     if t == 'ReadyToAir':
         return [tag, {}, '', '', ro + [T('roAir', op.get('air', 'READY'))]]
     if t == 'RODelete':
-        return [tag, {}, '', '', ro]
+        return [tag, {}, '', '', ro + list(op.get('extra', []))]
     # ---- roElementAction -------------------------------------------------
     level = OP_TABLE[t][3]
     tform = op.get('tform', 'id')
